@@ -19,7 +19,10 @@ RULE = ('Generated list fields (whitespace- or comma-separated; values with uniq
         'breaks, leading/trailing/doubled commas, comment lines before the first value, between values and after a trailing '
         'separator, comments containing separators; placed first/middle/last among sentinel fields, with/without final '
         'newline; 1..4 edits (append/remove/replace/reference set/reference remove) per case, in both write-back modes '
-        '(formatting preserved / reformat_when_finished), optionally with a second list view open on another field, through a '
+        '(formatting preserved / reformat_when_finished), in 30% of the cases with 1-2 further formatting calls '
+        '(reformat_when_finished, no_reformatting_when_finished, value_formatter with and without force_reformat) placed before, '
+        'in the middle of or after the edits, comment lines inside a multi-line comma item, '
+        'optionally with a second list view open on another field, through a '
         'fresh or one shared dict-view object, optionally after an abandoned edit session (exception inside the with block, '
         'never closed, close that fails).  '
         'Non-trivial: multi-line layout or comment inside or irregular separators, and >= 1 edit.')
@@ -39,11 +42,17 @@ ANCHORS = ['debian._deb822_repro.tokens:whitespace_split_tokenizer.<func>', 'deb
 MUST_REACH = ANCHORS
 FLOORS = {'quick': {'nontrivial': 2500, 'monitors': {'M.read': 5000, 'M.noop': 5000, 'M.edit': 4000, 'M.writeback': 4000, 'M.abort': 1200, 'K5': 4000},
                     'counters': {'op:append': 1000, 'op:comment+append': 300, 'op:remove': 800, 'op:replace': 800, 'op:ref-set': 800, 'op:ref-remove': 800, 'op:iter-remove': 120,
-                                 'layout:first-line-blank': 200, 'layout:comment-inside': 800, 'layout:multi-line-item': 250}},
+                                 'layout:first-line-blank': 200, 'layout:comment-inside': 800, 'layout:multi-line-item': 250,
+                                 'layout:comment-inside-item': 200, 'layout:comment-inside-last-item': 80, 'config:after/value_formatter': 250,
+                                 'config:before/value_formatter': 120, 'config:mid/value_formatter': 130, 'config:after/value_formatter_force': 130,
+                                 'config:after/no_reformatting_when_finished': 130}},
           'thorough': {'nontrivial': 150000, 'monitors': {'M.read': 300000, 'M.noop': 300000, 'M.edit': 250000, 'M.writeback': 250000,
                                                           'M.abort': 80000, 'K5': 250000},
                        'counters': {'op:append': 60000, 'op:comment+append': 18000, 'op:remove': 50000, 'op:replace': 50000, 'op:ref-set': 50000,
-                                    'op:ref-remove': 50000, 'op:iter-remove': 8000, 'layout:first-line-blank': 12000, 'layout:comment-inside': 50000, 'layout:multi-line-item': 30000}}}
+                                    'op:ref-remove': 50000, 'op:iter-remove': 8000, 'layout:first-line-blank': 12000, 'layout:comment-inside': 50000, 'layout:multi-line-item': 30000,
+                                    'layout:comment-inside-item': 20000, 'layout:comment-inside-last-item': 8000, 'config:after/value_formatter': 25000,
+                                    'config:before/value_formatter': 12000, 'config:mid/value_formatter': 13000, 'config:after/value_formatter_force': 13000,
+                                    'config:after/no_reformatting_when_finished': 13000}}}
 LEVEL_TEXT = ('Runtime monitoring: seeded list-field layouts and edit histories on the live list views; reads are compared with an '
               'independent split oracle, every step of an edit history with a Python-list model, the written-back document '
               'byte-for-byte outside the field and by fresh parse inside it.  Held-on-observed.')
@@ -187,6 +196,9 @@ def cases(ctx):
                 'pos': r.choice(['mid', 'mid', 'last', 'first']), 'final_nl': r.random() < .7,
                 'reformat': r.random() < .3, 'key': r.choice(['F', 'F', 'f']), 'ops': gen_ops(r, comma, len(vals), uid),
                 'shared_view': r.random() < .5, 'abort': r.choice([None, None, None, 'exception', 'unclosed', 'failed-close'])}
+        if r.random() < .3:
+            calls = ['reformat_when_finished', 'no_reformatting_when_finished', 'value_formatter', 'value_formatter', 'value_formatter_force']
+            case['config'] = [[r.choice(['before', 'mid', 'after', 'after']), r.choice(calls)] for _ in range(r.choice([1, 1, 2]))]
         if r.random() < .2:
             c2 = r.random() < .5
             g, gv, _ = gen_layout(r, c2, name='G')
@@ -350,8 +362,26 @@ def run_case(ctx, case):
                     v2.__exit__(None, None, None)
             if case['reformat']:
                 l.reformat_when_finished()
+            config = case.get('config') or []
+
+            def configure(when):
+                # formatting configuration of the session: WHICH formatting is chosen, and WHEN, never decides WHETHER edits are kept
+                for w, call in config:
+                    if w != when:
+                        continue
+                    ctx.count('config:%s/%s' % (when, call))
+                    if call == 'reformat_when_finished':
+                        l.reformat_when_finished()
+                    elif call == 'no_reformatting_when_finished':
+                        l.no_reformatting_when_finished()
+                    else:
+                        from debian._deb822_repro.formatter import one_value_per_line_trailing_separator as fmt
+                        l.value_formatter(fmt, force_reformat=(call == 'value_formatter_force'))
+            configure('before')
             for step, op in enumerate(case['ops']):
                 kind = op[0]
+                if step == len(case['ops']) // 2:
+                    configure('mid')
                 ctx.count('op:' + kind)
                 if kind == 'append':
                     l.append(op[1])
@@ -417,6 +447,7 @@ def run_case(ctx, case):
                     ctx.violation(k,
                                   'field %r step %d %r: live %r model %r' % (ftxt, step, op, list(l), model))
                     return
+            configure('after')
             if v2 is not None and not second['exit_first']:
                 v2.__exit__(None, None, None)
     except Exception as e:
